@@ -155,12 +155,13 @@ def _parse(res):
         res.coverage[m.group(1)] = (int(m.group(3)), int(m.group(4)))
 
 
-def run_chunks(spec, cfg, recs, path_prefix, env=None, chunk=12000, tag="FAIL", **kw):
+def run_chunks(spec, cfg, recs, path_prefix, env=None, chunk=12000, tag="FAIL", also=(), **kw):
     """Independent records (no cross references) validated in batches: a 60 MB trace file makes one JVM spend its time in
     the garbage collector.  `tid` is rewritten per batch.  Returns (merged TLCResult, [(record, rest-of-printed-tuple)])."""
     from .common import dump_ndjson
 
     total = TLCResult()
+    total.also = {}  # counts of other printed tags (e.g. "AMBIG")
     fails = []
     for b0 in range(0, len(recs), chunk):
         part = recs[b0:b0 + chunk]
@@ -181,6 +182,8 @@ def run_chunks(spec, cfg, recs, path_prefix, env=None, chunk=12000, tag="FAIL", 
         total.rc = 0
         for item in res.printed(tag):
             fails.append((part[item[0] - 1], item[1:]))
+        for t in also:
+            total.also[t] = total.also.get(t, 0) + len(res.printed(t))
     for k, r in enumerate(recs):
         r["tid"] = k + 1
     return total, fails
